@@ -126,3 +126,111 @@ pub fn nocase(x: u32, i: usize) -> NoCase {
         _ => w,
     })
 }
+
+/// An unsized, case-insensitive (ASCII) view of a `str`: a user-side text
+/// type that tokenizes like `str` but whose `Eq`/`Hash`/`Ord` are coarser than
+/// byte equality.
+#[repr(transparent)]
+pub struct Ci(str);
+
+impl Ci {
+    pub fn new(s: &str) -> &Ci {
+        // SAFETY: Ci is a transparent wrapper around str
+        unsafe { &*(s as *const str as *const Ci) }
+    }
+}
+
+impl std::fmt::Debug for Ci {
+    fn fmt(&self, f: &mut std::fmt::Formatter<'_>) -> std::fmt::Result {
+        std::fmt::Debug::fmt(&self.0, f)
+    }
+}
+
+#[derive(Debug, Clone)]
+pub struct CiBuf(String);
+
+impl std::borrow::Borrow<Ci> for CiBuf {
+    fn borrow(&self) -> &Ci {
+        Ci::new(&self.0)
+    }
+}
+
+impl ToOwned for Ci {
+    type Owned = CiBuf;
+    fn to_owned(&self) -> CiBuf {
+        CiBuf(self.0.to_owned())
+    }
+}
+
+impl PartialEq for Ci {
+    fn eq(&self, other: &Self) -> bool {
+        self.0.eq_ignore_ascii_case(&other.0)
+    }
+}
+impl Eq for Ci {}
+impl Hash for Ci {
+    fn hash<H: Hasher>(&self, state: &mut H) {
+        for b in self.0.bytes() {
+            state.write_u8(b.to_ascii_lowercase());
+        }
+        state.write_u8(0xff);
+    }
+}
+impl PartialOrd for Ci {
+    fn partial_cmp(&self, other: &Self) -> Option<Ordering> {
+        Some(self.cmp(other))
+    }
+}
+impl Ord for Ci {
+    fn cmp(&self, other: &Self) -> Ordering {
+        self.0
+            .bytes()
+            .map(|b| b.to_ascii_lowercase())
+            .cmp(other.0.bytes().map(|b| b.to_ascii_lowercase()))
+    }
+}
+
+fn wrap(v: Vec<&str>) -> Vec<&Ci> {
+    v.into_iter().map(Ci::new).collect()
+}
+
+impl DiffableStr for Ci {
+    fn tokenize_lines(&self) -> Vec<&Self> {
+        wrap(self.0.tokenize_lines())
+    }
+    fn tokenize_lines_and_newlines(&self) -> Vec<&Self> {
+        wrap(self.0.tokenize_lines_and_newlines())
+    }
+    fn tokenize_words(&self) -> Vec<&Self> {
+        wrap(self.0.tokenize_words())
+    }
+    fn tokenize_chars(&self) -> Vec<&Self> {
+        wrap(self.0.tokenize_chars())
+    }
+    #[cfg(feature = "unicode")]
+    fn tokenize_unicode_words(&self) -> Vec<&Self> {
+        wrap(self.0.tokenize_unicode_words())
+    }
+    #[cfg(feature = "unicode")]
+    fn tokenize_graphemes(&self) -> Vec<&Self> {
+        wrap(self.0.tokenize_graphemes())
+    }
+    fn as_str(&self) -> Option<&str> {
+        Some(&self.0)
+    }
+    fn to_string_lossy(&self) -> Cow<'_, str> {
+        Cow::Borrowed(&self.0)
+    }
+    fn ends_with_newline(&self) -> bool {
+        self.0.ends_with(&['\r', '\n'][..])
+    }
+    fn len(&self) -> usize {
+        self.0.len()
+    }
+    fn slice(&self, rng: Range<usize>) -> &Self {
+        Ci::new(&self.0[rng])
+    }
+    fn as_bytes(&self) -> &[u8] {
+        self.0.as_bytes()
+    }
+}
